@@ -7,6 +7,7 @@ import (
 	"github.com/olric-data/olric/internal/verif/confx"
 	"github.com/olric-data/olric/internal/verif/core"
 	"github.com/olric-data/olric/internal/verif/kvops"
+	"github.com/olric-data/olric/internal/verif/schedmc"
 	"github.com/olric-data/olric/internal/verif/simcluster"
 )
 
@@ -91,6 +92,16 @@ func init() {
 		// over four keys, the mirror oracle after every Put
 		c.Cov["rule"] = c.Cov["rule"].(string) + "; LRU part: BFS over Put sequences on four keys with MaxKeys / MaxInuse small enough to evict, N 2-3, R 2-3: after every Put a key that lost its primary copy to the eviction has no backup copy left, every other key's backup copies equal the primary copy"
 		clustermc.RunFamily(c, "C04lru")
+		// concurrent part: a waiting Lock that takes the lock over after the holder's Lease (the write
+		// with an older time stamp than the copy it replaces), every schedule with at most one
+		// preemption (two in thorough), mirror oracle on the final state
+		cb := 1
+		if !c.Quick() {
+			cb = 2
+		}
+		schedmc.RunFamily(c, "C04conc", cb, 1, 0)
+		delete(c.Cov, "preemption_bound_completed")
+		c.Cov["concurrent_part"] = fmt.Sprintf("lock take-over after a lease on R=3 clusters, preemption bound %d: the backup copies of the lock entry equal the primary copy afterwards", cb)
 		// the client-visible half of every explored step sequence is replayed on the real stack
 		// (the white-box backup comparison itself has no public-API counterpart)
 		var traces []confx.Trace
